@@ -130,3 +130,21 @@ pub unsafe fn ptr_copy_elementwise<T>(src: *const T, dst: *mut T, count: usize) 
         }
     }
 }
+
+/// Exact replacement of `s.chars().collect::<Vec<char>>()` for ASCII strings (the UTF-8 decoder of
+/// `str::chars` over symbolic bytes does not fit); a non-ASCII byte FAILS the harness, so nothing
+/// is cut silently.  Substituted textually into the scratch copy where a group says so.
+pub fn ascii_chars(s: &str) -> Vec<char> {
+    let b = s.as_bytes();
+    let mut v: Vec<char> = Vec::with_capacity(b.len());
+    let mut i = 0;
+    while i < b.len() {
+        assert!(b[i] < 128, "harness shape: ASCII only");
+        unsafe {
+            std::ptr::write(v.as_mut_ptr().add(i), b[i] as char);
+        }
+        i += 1;
+    }
+    unsafe { v.set_len(b.len()) };
+    v
+}
